@@ -4,11 +4,26 @@
 use crate::gen::Cfg;
 use pasfmt::FormattingConfig;
 use pasfmt_core::prelude::*;
-use std::sync::atomic::{AtomicUsize, Ordering};
+use std::sync::atomic::Ordering;
 
-pub static LOG_MISSING_BREAK: AtomicUsize = AtomicUsize::new(0);
-pub static LOG_NO_SOLUTION: AtomicUsize = AtomicUsize::new(0);
-pub static LOG_ITER_LIMIT: AtomicUsize = AtomicUsize::new(0);
+// per thread: a case runs on one worker thread, and the formatter logs on the thread that formats
+pub struct Counter(std::thread::LocalKey<std::cell::Cell<usize>>);
+impl Counter {
+    pub fn load(&'static self, _o: Ordering) -> usize {
+        self.0.with(|c| c.get())
+    }
+    pub fn fetch_add(&'static self, n: usize, _o: Ordering) {
+        self.0.with(|c| c.set(c.get() + n))
+    }
+}
+thread_local! {
+    static TL_MISSING_BREAK: std::cell::Cell<usize> = const { std::cell::Cell::new(0) };
+    static TL_NO_SOLUTION: std::cell::Cell<usize> = const { std::cell::Cell::new(0) };
+    static TL_ITER_LIMIT: std::cell::Cell<usize> = const { std::cell::Cell::new(0) };
+}
+pub static LOG_MISSING_BREAK: Counter = Counter(TL_MISSING_BREAK);
+pub static LOG_NO_SOLUTION: Counter = Counter(TL_NO_SOLUTION);
+pub static LOG_ITER_LIMIT: Counter = Counter(TL_ITER_LIMIT);
 
 pub struct CaptureLog;
 impl log::Log for CaptureLog {
